@@ -143,6 +143,10 @@ first_missed.update({
 first_missed.update({
     "C12-r9m2": "the largest mesh had 4 200 elements: nothing beyond 65536 elements (size thresholds inside the operators)",
 })
+first_missed.update({
+    "C01-r10m2": "PNorm data were positive only (the p-norm is differentiable at every non-zero entry of either sign)",
+    "C04-r10m2": "aggregation modules of the catalogue only had frozen factors: no damped AggScaling carrying a factor from an earlier response",
+})
 print("| id | defect (needs) | caught by (quick tier) | first evaluation |")
 print("|---|---|---|---|")
 for f in sorted(glob.glob(os.path.join(HERE, "seeded", "*", "meta.json"))):
